@@ -21,34 +21,10 @@ theorem head_ok_inv {cfg : Cfg} {url : Bytes → Bytes → Option UrlView} {buf 
   unfold head at h
   generalize Http1.parse cfg.h1 {} buf = st at h ⊢
   dsimp only at h
-  split at h
-  · simp at h
-  split at h
-  · simp at h
-  split at h
-  · simp at h
-  split at h
-  · simp at h
-  split at h
-  · simp at h
-  split at h
-  · simp at h
-  split at h
-  · simp at h
-  · simp at h
-  rename_i hr hhdr
-  split at h
-  · simp at h
-  · simp at h
-  split at h
-  · simp at h
-  split at h
-  · simp at h
-  split at h
-  · simp at h
-  simp only [Head.ok.injEq] at h
-  obtain ⟨h1, h2, h3, h4, h5, h6, h7⟩ := h
-  subst h1 h2 h3 h4 h5 h6 h7
-  rename_i hst hstat _ _ _ _ _ _ _ hfs _
-  refine ⟨by simpa using hst, by simpa using hstat, rfl, rfl, rfl, rfl, rfl, hr, hhdr, rfl, rfl, ?_⟩
-  simpa using hfs
+  repeat' (split at h)
+  all_goals first
+    | (simp at h; done)
+    | (simp only [Head.ok.injEq] at h
+       obtain ⟨rfl, rfl, rfl, rfl, rfl, rfl, rfl⟩ := h
+       rename_i hr hhdr _ _ _ _ _ _
+       refine ⟨by simp_all, by simp_all, rfl, rfl, rfl, rfl, rfl, hr, hhdr, rfl, by simp_all, by simp_all⟩)
